@@ -166,6 +166,11 @@ func (s *Sim) stepMkBuiltin(st Step) bool {
 		return false
 	}
 	nrev := 1 + abs(st.B)%4
+	// B bit 2: the history carries one revision number several times (what an
+	// interrupted earlier migration attempt leaves behind: the built-in controller
+	// no longer lists a revision whose labels were stripped and numbers the next
+	// one as if it were not there); the record of the set's template is the oldest
+	tie := (abs(st.B)>>2)&1 == 1 && nrev > 1
 	tr := NewPRNG(mix(s.Seed, uint64(abs(st.D)), 0x18))
 	var tmpls []v1.PodTemplateSpec
 	for i := 0; i < nrev; i++ {
@@ -179,7 +184,16 @@ func (s *Sim) stepMkBuiltin(st Step) bool {
 	owner := ownerRefFor("apps/v1", "StatefulSet", c.Name, created.UID)
 	var names []string
 	revData := map[string]string{}
-	for i, t := range tmpls {
+	order := make([]int, nrev)
+	for i := range order {
+		order[i] = i
+		if tie {
+			order[i] = nrev - 1 - i
+		}
+	}
+	names = make([]string, nrev)
+	for _, i := range order {
+		t := tmpls[i]
 		bb := created.DeepCopy()
 		bb.Spec.Template = t
 		data := BuiltinPatch(bb)
@@ -193,13 +207,13 @@ func (s *Sim) stepMkBuiltin(st Step) bool {
 		r.Data = runtime.RawExtension{Raw: data}
 		revData[r.Name] = string(data)
 		r.Revision = int64(i + 1)
-		r.OwnerReferences = []metav1.OwnerReference{owner}
-		if _, err := stCreate(s.Store, KRev, NS, r); err != nil {
-			// two drawn templates may coincide: the built-in controller would re-use the revision
-			names = append(names, r.Name)
-			continue
+		if tie {
+			r.Revision = 1
 		}
-		names = append(names, r.Name)
+		r.OwnerReferences = []metav1.OwnerReference{owner}
+		names[i] = r.Name
+		// two drawn templates may coincide: the built-in controller would re-use the revision
+		stCreate(s.Store, KRev, NS, r)
 	}
 	// pods: the top `C` ordinals at the newest revision, the rest at the previous one
 	atNew := abs(st.C) % (int(c.Replicas) + 2)
